@@ -21,7 +21,7 @@ Extraction "model.ml"
   Model.Five.hrvh Model.Five.hand_rank_value Model.Five.hand_rank_value_validated Model.Five.evaluate_five_cards
   Model.Five.find_in_products Model.Five.is_flush Model.Five.is_straight Model.Five.is_straight_flush
   Model.Five.is_wheel Model.Five.or_rank_bits Model.Five.and_bits Model.Five.or_bits Model.Five.multiply_primes
-  Model.Five.select
+  Model.Five.select Model.Five.evaluate_is_flush Model.Five.evaluate_or_rank_bits
   Model.HandRank.hr_from Model.HandRank.hr_default Model.HandRank.is_invalid Model.HandRank.is_a_valid_hand_rank
   Model.HandRank.determine_name Model.HandRank.determine_class Model.HandRank.hr_cmp Model.HandRank.hr_eqb
   Model.HandRank.hr_lt Model.HandRank.hr_le Model.HandRank.hr_gt Model.HandRank.hr_ge
